@@ -166,6 +166,9 @@ func zooCases(thorough bool) []zooCase {
 				var pkParts []string
 				for k, c := range pk {
 					p := names[c]
+					if (k+pi)%2 == 1 {
+						p = strings.ToUpper(p)
+					}
 					if dm&(1<<uint(k)) != 0 {
 						p += " DESC"
 					}
@@ -176,7 +179,13 @@ func zooCases(thorough bool) []zooCase {
 				for si, sub := range orderedSubsets(4, 2) {
 					var parts []string
 					for k, c := range sub {
-						parts = append(parts, names[c]+mods[(si+k+pi)%len(mods)])
+						// every other index spells the column in the other letter case (names are case insensitive; the
+						// column's declared collation is inherited all the same)
+						nm := names[c]
+						if (si+k)%2 == 1 {
+							nm = strings.ToUpper(nm)
+						}
+						parts = append(parts, nm+mods[(si+k+pi)%len(mods)])
 					}
 					stmts = append(stmts, fmt.Sprintf("CREATE INDEX zi%d ON z (%s)", si, strings.Join(parts, ", ")))
 				}
@@ -221,6 +230,38 @@ func zooCases(thorough bool) []zooCase {
 			stmts = append(stmts, fmt.Sprintf("INSERT OR IGNORE INTO z VALUES (1, 'K1'||%s, %d, 'tail%d')", tail, 40+i, i))
 		}
 		out = append(out, zooCase{name: fmt.Sprintf("without-rowid repeated/shared primary key #%d", pi), stmts: stmts})
+	}
+	// --- key columns long enough to be cut by the local-payload limit (39..102 bytes of key at page size 512): the
+	// first key column is complete on the page, a later one continues on overflow pages; several rows share the
+	// leading column. Read through secondary indexes (every entry is looked up by its primary key).
+	for pi, def := range []string{
+		"CREATE TABLE z (a, b TEXT, c, d, PRIMARY KEY (a, b)) WITHOUT ROWID",
+		"CREATE TABLE z (a, b TEXT, c, d, PRIMARY KEY (a, b DESC)) WITHOUT ROWID",
+		"CREATE TABLE z (a, b TEXT COLLATE NOCASE, c, d, PRIMARY KEY (b, a)) WITHOUT ROWID",
+		"CREATE TABLE z (a, b TEXT, c, d, PRIMARY KEY (a, c, b)) WITHOUT ROWID",
+	} {
+		stmts := []string{def, "CREATE INDEX zi0 ON z (d, a)", "CREATE INDEX zi1 ON z (c DESC)", "CREATE INDEX zi2 ON z (b, d)"}
+		for i := 0; i < 18; i++ {
+			stmts = append(stmts, fmt.Sprintf("INSERT OR IGNORE INTO z VALUES (%d, 'shared-prefix-of-a-long-key-%s'||%d, %d, 'd%d')", i%3, strings.Repeat("x", 20+(i%4)*25), i, 30-i, i%5))
+		}
+		out = append(out, zooCase{name: fmt.Sprintf("without-rowid long key columns #%d", pi), stmts: stmts})
+	}
+	// --- rows that all spill to overflow pages, one after the other, with a BLOB in them (what a reader keeps of row
+	// k must not be what it builds row k+1 in)
+	{
+		stmts := []string{"CREATE TABLE z (a INTEGER PRIMARY KEY, b BLOB, c, d)", "CREATE INDEX zi0 ON z (c)"}
+		for i := 0; i < 8; i++ {
+			stmts = append(stmts, fmt.Sprintf("INSERT INTO z VALUES (%d, CAST(printf('%%0700d', %d) AS BLOB), %d, CAST(printf('%%0600d', %d) AS BLOB))", i+1, 1000+i, 50-i, 2000+i))
+		}
+		out = append(out, zooCase{name: "consecutive overflowing blob rows", stmts: stmts})
+	}
+	// --- a WITHOUT ROWID table with a DESC primary key and NO other index (as a legacy-format file the DESC is ignored)
+	{
+		stmts := []string{"CREATE TABLE z (a, b TEXT, c, d, PRIMARY KEY (b DESC, a)) WITHOUT ROWID"}
+		for i := 0; i < 14; i++ {
+			stmts = append(stmts, fmt.Sprintf("INSERT OR IGNORE INTO z VALUES (%d, 'k%d', %d, 'd%d')", i%4, i%5, 20-i, i%5))
+		}
+		out = append(out, zooCase{name: "without-rowid DESC primary key, no secondary index", stmts: stmts})
 	}
 	return out
 }
